@@ -144,7 +144,18 @@ func limitsBody(c *runner.Ctx) {
 		limits[org] = true
 		h := &handle{org: org}
 		var err error
-		switch c.Choose(3, "handle-kind") {
+		switch c.Choose(4, "handle-kind") {
+		case 3:
+			// a shard limit, then a dynamic limit that restricts nothing itself (its
+			// callback returns no filter): the shard limit must survive
+			h.dyn = true
+			h.db, err = base.WithShardLimit(sqlgen.Filter{"org_id": org})
+			if err == nil {
+				h.db, err = h.db.WithDynamicLimit(sqlgen.DynamicLimit{
+					GetLimitFilter:        func(ctx context.Context, table string) sqlgen.Filter { return nil },
+					ShouldContinueOnError: func(err error, table string) bool { return true },
+				})
+			}
 		case 0:
 			h.db, err = base.WithShardLimit(sqlgen.Filter{"org_id": org})
 		case 1:
@@ -214,6 +225,7 @@ func limitsBody(c *runner.Ctx) {
 		nextID++
 		id := nextID
 		existing := int64(1 + c.Choose(6, "existing-id"))
+		withWhere := c.Choose(3, "custom-where") == 1
 		delay := time.Duration(c.Choose(4, "call-delay")) * 500 * time.Microsecond
 		c.Describe("call %d: %s on handle(org=%d dyn=%v) verdict=%s batched=%v tx=%v filter=%v", i, ci.op, h.org, h.dyn, ci.verdict, ci.batched, inTx, filter)
 		go func() {
@@ -240,9 +252,14 @@ func limitsBody(c *runner.Ctx) {
 			}
 			var err error
 			var rows []*Item
+			var opts *sqlgen.SelectOptions
+			if ci.op == "Query" && !ci.batched && withWhere {
+				// a custom WHERE with a top-level OR, ANDed with the filter
+				opts = &sqlgen.SelectOptions{Where: "name = ? OR qty = ?", Values: []interface{}{"n1", int64(4)}}
+			}
 			switch ci.op {
 			case "Query":
-				err = h.db.Query(ctx, &rows, filter, nil)
+				err = h.db.Query(ctx, &rows, filter, opts)
 			case "QueryRow":
 				var it *Item
 				err = h.db.QueryRow(ctx, &it, filter, nil)
